@@ -998,11 +998,17 @@ impl<'l> CelCompiler<'l> {
                         // Arguments are evaluated backwards so they get popped off the stack in order
                         for (a, ast) in args.into_iter().rev() {
                             args_ast.push(ast);
-                            args_node =
-                                args_node.append_result(CompiledProg::with_code_points(vec![
-                                    ByteCode::Push(a.into_unresolved_bytecode().resolve().into())
-                                        .into(),
-                                ]))
+                            // the argument travels as a code block; the identifiers it reads
+                            // stay part of this expression
+                            let (a_node, a_details) = a.into_parts();
+                            args_node = args_node.append_result(CompiledProg::new(
+                                NodeValue::Bytecode(
+                                    [ByteCode::Push(a_node.into_bytecode().resolve().into())]
+                                        .into_iter()
+                                        .collect(),
+                                ),
+                                a_details,
+                            ))
                         }
 
                         member_prime_node = args_node
@@ -1421,14 +1427,15 @@ impl<'l> CelCompiler<'l> {
 
     #[inline]
     fn check_for_const(&self, member_prime_node: CompiledProg) -> CompiledProg {
+        let (node, details) = member_prime_node.into_parts();
         let mut i = Interpreter::empty();
         i.add_bindings(&self.bindings);
-        let bc = member_prime_node.into_unresolved_bytecode().resolve();
+        let bc = node.into_bytecode().resolve();
         let r = i.run_raw(&bc, true);
 
         match r {
-            Ok(v) => CompiledProg::with_const(v),
-            Err(_) => CompiledProg::with_bytecode(bc),
+            Ok(v) => CompiledProg::new(NodeValue::ConstExpr(v), details),
+            Err(_) => CompiledProg::new(NodeValue::Bytecode(bc.into()), details),
         }
     }
 }
